@@ -194,7 +194,8 @@ def _c12():
 
 
 EQ_SCALAR = "unit true false number char byte symbol symbol_list char_list byte_list".split()
-EQ_STRUCT = [("pair", "pair"), ("list", "list"), ("list", "concatenation"), ("concatenation", "list"), ("concatenation", "concatenation"), ("pair", "list"), ("list", "number")]
+SHAPES = [("pair_pair", "(n0 = n1) vs (n2 = n3)"), ("pair_pair_shared", "(n0 = n1) vs (n0 = n3), first component shared"), ("pair_self", "the same pair twice"), ("nested_pairs", "((n0 = n1) = n2) vs ((n3 = n4) = n5)"), ("list2_list2", "(n0 n1) vs (n2 n3)"), ("list2_list1", "(n0 n1) vs (n2): longer LEFT operand"), ("list1_list2", "(n0) vs (n1 n2)"), ("empty_empty", "two empty lists"), ("list2_concat_list_item", "(n0 n1) vs ((n2) <> n3)"), ("concat_items_list2", "(n0 <> n1) vs (n2 n3)"), ("concat_lists_concat_items", "((n0) <> (n1)) vs (n2 <> n3)"), ("list_of_pair", "((n0 = n1),) vs ((n2 = n3),)"), ("pair_with_symbol", "(n0 = :s) vs (n2 = n3)"), ("list3_concat", "(n0 n1 n2) vs ((n3 n4) <> n5)")]
+EQ_STRUCT = [("pair", "pair"), ("list", "list"), ("list", "concatenation"), ("concatenation", "list"), ("concatenation", "concatenation"), ("pair", "list")]
 
 
 def _c11():
@@ -206,10 +207,14 @@ def _c11():
         hs.append(H("c11_not_equal_%s" % t, "rel", "quick" if t in ("number", "char_list") else "thorough", "NotEqual, same operands: the negation"))
     hs.append(H("c11_equal_numbers_mixed", "rel", "quick", "Equal on two numbers of any representation (any i32 / any f64 incl. NaN, infinities, -0.0; mixed): numeric equality"))
     hs.append(H("c11_not_equal_numbers_mixed", "rel", "quick", "NotEqual on the same: the negation"))
+    for nm, what2 in SHAPES:
+        hs.append(H("c11_shape_equal_%s" % nm, "rel", "quick", "Equal on the concrete shape %s; leaf payloads symbolic (full i32): %s" % (what2, what)))
+        hs.append(H("c11_shape_not_equal_%s" % nm, "rel", "quick" if nm in ("list2_list1", "nested_pairs") else "thorough", "NotEqual on the same shape"))
     for l, r in EQ_STRUCT:
-        q = (l, r) in (("pair", "pair"), ("list", "list"), ("list", "concatenation"))
-        hs.append(H("c11_equal_%s_vs_%s" % (l, r), "rel", "quick" if q else "thorough", "Equal: %s vs %s (or the same value twice), children symbolic and shared between the operands, lists of length 0..2: %s" % (l, r, what), timeout=1500))
-        hs.append(H("c11_not_equal_%s_vs_%s" % (l, r), "rel", "thorough", "NotEqual, same operands", timeout=1500))
+        for leaves in ("numbers", "symbols", "mixed"):
+            q = False
+            hs.append(H("c11_equal_%s_vs_%s_%s" % (l, r, leaves), "rel", "quick" if q else "thorough", "Equal: %s vs %s (or the same value twice); leaf values are %s with symbolic payloads, shared between the operands; lists of length 0..2, items symbolic: %s" % (l, r, leaves, what), timeout=1800, optional=True))
+            hs.append(H("c11_not_equal_%s_vs_%s_%s" % (l, r, leaves), "rel", "thorough", "NotEqual, same operands", timeout=1800, optional=True))
     return {
         "claim": "Equal holds exactly when the reference structural equality (harness/src/bodies/relations.rs ref_eq, written from the property statement) holds, NotEqual is its negation, both leave exactly one boolean and the registers below untouched however early they decide. Reflexivity is covered by passing the same value twice, symmetry and transitivity follow from agreement with the (symmetric, transitive) reference on both operand orders.",
         "functions": ["runtime/src/runtime/equality.rs equal, not_equal, perform_equality_check, data_equal, compare_*, push_iterator_values, match_last_iter_values", "data/src/data/number.rs PartialEq for SimpleNumber", "runtime/src/execute.rs"],
